@@ -179,6 +179,10 @@ instance {b : Type} {n : Nat} : IteB (A1 n b) (A0 b) (A1 n b) := ⟨fun c x y =>
 instance {b : Type} {n : Nat} : IteB (A0 b) (A1 n b) (A1 n b) := ⟨fun c x y => if c then ⟨fun _ => x.v⟩ else y⟩
 def ite {X Y Z : Type} [IteB X Y Z] (c : Bool) (x : X) (y : Y) : Z := IteB.ite c x y
 
+/-- `out = np.full((k, k), False); for i, j in combinations(range(len(X)), 2): a, b = X[[i, j]]; out[i, j] = f a b; out[j, i] = g a b` -/
+def pair_fill {b c : Type} {m n : Nat} (x : A2 m n b) (_len _d0 _d1 : Dim m c) (f g : A1 n b → A1 n b → A0 Bool) : A2 m m Bool :=
+  ⟨fun i j => if i < j then (f ⟨x.v i⟩ ⟨x.v j⟩).v else if j < i then (g ⟨x.v j⟩ ⟨x.v i⟩).v else false⟩
+
 /-- `np.tile(x, (k, 1))`: `k` copies of the row `x` -/
 def tile {b c : Type} {k n : Nat} (x : A1 n b) (_k : Dim k c) : A2 k n b := ⟨fun _ j => x.v j⟩
 /-- `out = np.empty((m, k)); for idx, row in enumerate(X): out[idx] = f(row)` -/
